@@ -846,6 +846,11 @@ func (x *xtr) assignTuple(t *ast.AssignStmt) string {
 			rs = x.applyFn(r, selName(r.Fun), ft)
 			break
 		}
+		if fn, ft, ok := x.knownMethod(r); ok {
+			rtys = ft.results
+			rs = x.applyFn(r, fn, ft)
+			break
+		}
 		var ok bool
 		if rs, rtys, ok = x.callLibTuple(r); !ok {
 			x.bad(t, "call %s with several results", selName(r.Fun))
